@@ -148,8 +148,12 @@ def scenarios(tier):
            _scenario("read||empty", [("T1", "read"), ("T2", "empty")], tier),
            _scenario("feed||read||empty", [("T1", "feed"), ("T2", "read"), ("T3", "empty")], tier)]
     if tier == "thorough":
-        out += [_scenario("feed||read||read", [("T1", "feed"), ("T2", "read"), ("T3", "read")], tier),
-                _scenario("feed||close||read", [("T1", "feed"), ("T2", "close"), ("T3", "read")], tier)]
+        # feed||read||read (two readers woken by one feed) is the natural scenario for a lost wake-up, but z3 answers
+        # `unknown` on it after 25 minutes (depth 64); it is not claimed.  close||read||read is within reach.
+        out += [_scenario("feed||close||read", [("T1", "feed"), ("T2", "close"), ("T3", "read")], tier),
+                _scenario("close||read||read", [("T1", "close"), ("T2", "read"), ("T3", "read")], tier)]
+        for sc in out[-2:]:
+            sc.timeout_ms = 1200000
     return out
 
 
